@@ -2,6 +2,9 @@ package main
 
 import (
 	"fmt"
+	"io"
+	"strconv"
+	"time"
 )
 
 func init() { runners["c15"] = runC15 }
@@ -12,7 +15,11 @@ func (s *Sess) Reopen() error {
 	if err != nil {
 		return err
 	}
-	s.h = newServer(nb)
+	if s.st.Ext != nil {
+		s.h = s.st.Ext
+	} else {
+		s.h = newServer(nb)
+	}
 	emit(s.prop, "REOPEN")
 	return nil
 }
@@ -64,5 +71,173 @@ func runC15(tier string, seed uint64) {
 			s.end()
 		}
 	}
+	// crash points of single writes on the fs backends
+	for _, kind := range []string{"fsdir", "sfsdir"} {
+		c15Crash(kind)
+	}
+	sample("crash points (fs backends on a real directory, file system wrapped): for each of put new key / overwrite longer, shorter, same length, dropping metadata / delete / copy over existing and to a new key / multi-delete / create-bucket, the request is killed immediately before each state-changing file-system call it makes and half way through each file write; a new backend on what is left is probed in full (bucket list, listing, GET+HEAD of every key incl. metadata) and must equal the model state with or without that write")
+	// the same against the real server binary (cmd/gofakes3 with its command-line wiring); a restart is kill -9
+	if serverBinary != "" {
+		nbin, nkill := 3, 3
+		if tier == "thorough" {
+			nbin, nkill = 25, 60
+		}
+		for _, kind := range []string{"boltbin", "fsbin", "sfsbin"} {
+			for i := 0; i < nbin; i++ {
+				c15History(kind, rng, 24, fmt.Sprint(kind, i))
+			}
+			c15Kill(kind, rng, nkill)
+		}
+		sample("the real server binary built from /repo/cmd/gofakes3 (-backend bolt | fs with -fs.meta | directfs with -directfs.meta) on scratch directories, requests over TCP: the same random histories, every restart being SIGKILL + a new process on the same storage; and kill points: a stream of acknowledged puts (bodies 0..64 KiB, metadata) / overwrites / deletes, then SIGKILL while one more write is in flight (half of its body sent, or a random 0..3 ms after it was issued); after the restart the full probe must match the model state with or without the in-flight write, nothing else")
+	}
 	sample("bolt file, multi-bucket fs and single-bucket fs (with on-disk metadata) on real temp directories: C02-style random histories (plus puts with random binary bodies and metadata) interleaved with 1..3 clean restarts (close, re-open the same storage, new server); before and after every restart the full probe (bucket list, listings, GET and HEAD of every key incl. metadata) is compared with the model, whose state a restart does not change")
+}
+
+func c15History(kind string, rng *Rng, length int, tag string) {
+	s := newSess("c15", kind, SessOpts{})
+	u := univFor(kind)
+	if !isSingle(kind) {
+		s.MkBucket(u.buckets[0])
+	}
+	meta := []KV{{"X-Amz-Meta-Color", "blue"}, {"Content-Type", "text/x-verif"}}
+	reopens := 1 + rng.Intn(2)
+	for r := 0; r < reopens; r++ {
+		for j := 0; j < length/reopens; j++ {
+			if rng.Intn(4) == 0 {
+				b := u.buckets[rng.Intn(len(u.buckets))]
+				s.Put(b, u.keys[rng.Intn(len(u.keys))], rng.Bytes(rng.Intn(40)), meta)
+			} else {
+				c02RandomOp(s, u, rng)
+			}
+		}
+		probe := func() {
+			c02Probe(s, u)
+			for _, b := range u.buckets {
+				for _, k := range u.keys {
+					s.Head(b, k, "")
+				}
+			}
+		}
+		probe()
+		if err := s.Reopen(); err != nil {
+			emit(s.prop, "REOPENFAIL", hs(err.Error()))
+			break
+		}
+		probe()
+		nontrivial(fmt.Sprint(tag, r))
+	}
+	s.end()
+}
+
+// halfReader hands out the first half of the body, reports that it did, and then waits
+type halfReader struct {
+	data    []byte
+	half    int
+	sent    int
+	reached chan struct{}
+	cont    chan struct{}
+	told    bool
+}
+
+func (h *halfReader) Read(p []byte) (int, error) {
+	if h.sent >= h.half && !h.told {
+		h.told = true
+		close(h.reached)
+		<-h.cont
+	}
+	if h.sent >= len(h.data) {
+		return 0, io.EOF
+	}
+	lim := len(h.data)
+	if !h.told && h.half < lim {
+		lim = h.half
+	}
+	n := copy(p, h.data[h.sent:lim])
+	h.sent += n
+	return n, nil
+}
+
+// c15Kill: acknowledged writes, then SIGKILL with one more write in flight
+func c15Kill(kind string, rng *Rng, nrounds int) {
+	s := newSess("c15", kind, SessOpts{})
+	b := singleBucketName
+	if !isSingle(kind) {
+		s.MkBucket(b)
+	}
+	keys := []string{"a/b", "d", "e/f/g"}
+	sizes := []int{0, 1, 700, 9000, 65536}
+	probe := func() {
+		s.ListBuckets()
+		s.List(ListReq{Bucket: b, MaxKeys: -1})
+		for _, k := range keys {
+			s.Get(b, k, "")
+			s.Head(b, k, "")
+		}
+	}
+	for round := 0; round < nrounds; round++ {
+		for j := rng.Intn(5); j > 0; j-- {
+			k := keys[rng.Intn(len(keys))]
+			if rng.Intn(4) == 0 {
+				s.Delete(b, k)
+			} else {
+				s.Put(b, k, rng.Bytes(sizes[rng.Intn(len(sizes))]), []KV{{"X-Amz-Meta-Round", strconv.Itoa(round)}})
+			}
+		}
+		// the write in flight
+		k := keys[rng.Intn(len(keys))]
+		meta := []KV{{"X-Amz-Meta-Round", "inflight-" + strconv.Itoa(round)}, {"Content-Type", "text/x-inflight"}}
+		mode := rng.Intn(3) // 0: delete, timed; 1: put, killed mid-body; 2: put, timed
+		body := rng.Bytes(sizes[1+rng.Intn(len(sizes)-1)])
+		done := make(chan struct{})
+		s.startCapture()
+		var hr *halfReader
+		switch mode {
+		case 0:
+			go func() { defer close(done); s.Delete(b, k) }()
+		case 1:
+			hr = &halfReader{data: body, half: len(body) / 2, reached: make(chan struct{}), cont: make(chan struct{})}
+			go func() {
+				defer close(done)
+				hdr := [][2]string{{"Content-Length", strconv.Itoa(len(body))}}
+				for _, kv := range meta {
+					hdr = append(hdr, [2]string{kv.K, kv.V})
+				}
+				r := do(s.h, Req{Method: "PUT", Path: "/" + b + "/" + k, Reader: hr, Header: hdr})
+				s.emitOp("put", []string{hs(b), hs(k), hx(body), metaArg(meta)}, obsT{r: r})
+			}()
+		default:
+			go func() { defer close(done); s.Put(b, k, body, meta) }()
+		}
+		if hr != nil {
+			if !waitOr(hr.reached, 5*time.Second) {
+				emit(s.prop, "NOTE", hs("half-sent body never requested"))
+			}
+			time.Sleep(time.Duration(rng.Intn(3000)) * time.Microsecond) // let the server consume what was sent
+		} else {
+			time.Sleep(time.Duration(rng.Intn(3000)) * time.Microsecond)
+		}
+		s.st.Ext.kill()
+		if hr != nil {
+			close(hr.cont)
+		}
+		<-done
+		recs := s.takeCapture()
+		for _, c := range recs {
+			if c.o.r.Status == 599 {
+				emit(append([]string{s.prop, "MAYBE", c.name}, c.args...)...)
+				stat("inflight-at-kill-" + c.name)
+			} else {
+				s.emitOpX(c.name, c.args, c.o, c.noteV)
+				stat("acknowledged-before-kill-" + c.name)
+			}
+		}
+		if err := s.st.Ext.start(); err != nil {
+			emit(s.prop, "REOPENFAIL", hs(err.Error()))
+			break
+		}
+		emit(s.prop, "REOPEN")
+		probe()
+		nontrivial(fmt.Sprint(kind, "kill", round))
+	}
+	s.end()
 }
